@@ -20,15 +20,20 @@ id sits on its slot, every other slot is `00`, the line has `den` slots), `line_
 * `lineKeys_cover` / `lineKeys_unique` — every cell is written in exactly one output line;
 * `written_line_denotes` (with `classify_rendered`) — the denotation's lexer reads a rendered line back as measure,
   channel and exactly the line's non-`00` cells at beat `4·idx/den`;
+* `written_objects` — the per-channel union: over all lines of `linesOfCells cells`, the by-the-book objects of a
+  channel are exactly the non-`00` cells of that channel at measure, beat `4·idx/den`, with their ids;
+* `pairLane_atoms` — by-the-book LNOBJ pairing of a written lane: when the lane's objects in position order are
+  the chart's hits and head/LNOBJ pairs one after the other (nothing inside a hold: ¬D37), the pairing returns
+  exactly those hits and holds;
 * `write_positions` — `TimingMap.snaps` as the model runs it: the by-the-book time of every written position is
   the in-memory time exactly on the snap grid and within 1/192 beat (at the tempo in force) otherwise (through
   C10's `timeAtAux_snapAtAux` / `_err`, `snap_err_default`, `bcsOfBco_rederive`, `stableArgsort_sortsAscR`);
 * `written_slot_time` — the two composed: the slot the writer fills for a time denotes that time.
 `bms_write_read` as ONE theorem is still NOT assembled.  Missing: the rendered header read back (`#BPM`,
-`#BPMxx`, `#LNOBJ`, `#WAVxx` through `readHeader`), the union of the written lines per channel (`channelObjs` over
-`linesOfCells`), the by-the-book LNOBJ pairing on the written lane (needs "nothing inside a hold of its lane",
-D37), and "the tempo objects of the written file are the in-memory tempo list" (needs the positions `snaps`
-assigns to the tempo points' own offsets).
+`#BPMxx` = `parseFloat ∘ showFixed 3`, `#LNOBJ`, `#WAVxx` through `readHeader`), "the tempo objects of the written
+file are the in-memory tempo list" (needs the positions `snaps` assigns to the tempo points' own offsets), that
+the lane's sorted objects are the `Atom` sequence of the chart (sorting the written cells by position), and the
+composition of the pieces.
 -/
 import Reamber.Lemmas.FindLcm
 import Reamber.Lemmas.BMSLines
@@ -556,6 +561,181 @@ theorem written_line_denotes (cells : List WCell) (k : WCell) (hm : 0 ≤ k.meas
         rw [List.getElem?_eq_getElem hci, hval]
       refine ⟨(c.idx, c.value), (zipIdxFrom_mem_iff seq 0 _).mpr ⟨c.idx, hci, by simp, hval'⟩, ?_⟩
       simp [hne0]
+
+/-! ### LNOBJ pairing on a written lane -/
+
+/-- what a lane of the in-memory chart contributes to the file: a hit is one object, a hold is a head object
+followed by an `#LNOBJ` object -/
+inductive Atom where
+  | hit (o : Obj)
+  | hold (h t : Obj)
+
+def Atom.objs : Atom → List Obj
+  | .hit o => [o]
+  | .hold h t => [h, t]
+
+def Atom.wf (ln : Bytes) : Atom → Prop
+  | .hit o => o.id ≠ ln
+  | .hold h t => h.id ≠ ln ∧ t.id = ln
+
+def Atom.hits (so : Bytes → Bytes) (col : Nat) : Atom → List SHit
+  | .hit o => [⟨col, so o.id, o.snap⟩]
+  | .hold _ _ => []
+
+def Atom.holds (so : Bytes → Bytes) (col : Nat) : Atom → List SHold
+  | .hit _ => []
+  | .hold h t => [⟨col, so h.id, h.snap, t.snap⟩]
+
+/-- **By-the-book pairing of a written lane.**  When the lane's objects in position order are the chart's hits
+and holds one after the other — every hold's `#LNOBJ` object directly after its head, i.e. nothing of the lane lies
+inside a hold (the hypothesis D37 violates) — the by-the-book pairing returns exactly those hits and exactly those
+holds (head position, tail position, the head's sample), in order. -/
+theorem pairLane_atoms (ln : Bytes) (so : Bytes → Bytes) (col : Nat) (atoms : List Atom)
+    (hwf : ∀ a ∈ atoms, a.wf ln) :
+    pairLane (some ln) so col none (atoms.flatMap Atom.objs) =
+      some (atoms.flatMap (Atom.hits so col), atoms.flatMap (Atom.holds so col)) := by
+  induction atoms with
+  | nil => rfl
+  | cons a rest ih =>
+    have ih' := ih (fun x hx => hwf x (by simp [hx]))
+    have ha := hwf a (by simp)
+    cases a with
+    | hit o =>
+      have ho : ¬ (some o.id = some ln) := by
+        intro e; injection e with e; exact ha e
+      simp only [List.flatMap_cons, Atom.objs, List.cons_append, List.nil_append, Atom.hits, Atom.holds]
+      -- the open object `o` is flushed as a hit by whatever comes next
+      have key : ∀ (os : List Obj) (H : List SHit) (L : List SHold), pairLane (some ln) so col none os = some (H, L) →
+          pairLane (some ln) so col (some o) os = some (⟨col, so o.id, o.snap⟩ :: H, L) := by
+        intro os
+        induction os with
+        | nil =>
+          intro H L h
+          simp only [pairLane, Option.some.injEq, Prod.mk.injEq] at h
+          obtain ⟨rfl, rfl⟩ := h
+          rfl
+        | cons x xs _ =>
+          intro H L h
+          by_cases hx : some x.id = some ln
+          · simp [pairLane, hx] at h
+          · simp only [pairLane, hx, if_false] at h ⊢
+            rw [h]; rfl
+      simp only [pairLane, ho, if_false]
+      exact key _ _ _ ih'
+    | hold h t =>
+      obtain ⟨hh, ht⟩ := ha
+      have h1 : ¬ (some h.id = some ln) := by
+        intro e; injection e with e; exact hh e
+      have h2 : some t.id = some ln := by rw [ht]
+      simp only [List.flatMap_cons, Atom.objs, List.cons_append, List.nil_append, Atom.hits, Atom.holds, pairLane, h1,
+        if_false, h2, if_true, ih', Option.map_some]
+
+/-! ### the data lines of a written file, read back: per-channel union of the lines -/
+
+/-- a cell the writer can render: measure 000–999, positive denominator, two-character base-36 channel and id -/
+def CellOK (c : WCell) : Prop :=
+  (0 ≤ c.measure ∧ c.measure < 1000) ∧ 0 < c.den ∧ (∃ a b, c.channel = [a, b] ∧ isB36 a = true ∧ isB36 b = true) ∧
+  (c.value.length = 2 ∧ c.value.all isB36 = true)
+
+theorem objsOfLine_of (d : Bytes × Bytes × Bytes) (m : Nat) (objs : List Obj) (hm : parseNat d.1 = some m)
+    (ho : lineObjs m d.2.2 = some objs) : objsOfLine d = objs := by
+  unfold lineObjs at ho
+  cases hps : evenPairs d.2.2 with
+  | none => simp [hps] at ho
+  | some ps =>
+    simp only [hps, Option.map_some, Option.some.injEq] at ho
+    simp only [objsOfLine, hm, hps, objsOfPairs]
+    exact ho
+
+theorem laneObjs_cons (d : Bytes × Bytes × Bytes) (notes : List (Bytes × Bytes × Bytes)) (ch : Bytes) :
+    laneObjs (d :: notes) ch = (if d.2.1 = ch then objsOfLine d else []) ++ laneObjs notes ch := by
+  unfold laneObjs
+  by_cases h : d.2.1 = ch
+  · simp [List.filter_cons, h]
+  · simp [List.filter_cons, h]
+
+theorem foldlE_docStep_notes (ds : List Bytes) : ∀ (doc0 : Doc) (notes : List (Bytes × Bytes × Bytes)),
+    List.Forall₂ (fun l d => classify l = .ok (.note d.1 d.2.1 d.2.2)) ds notes →
+    foldlE docStep doc0 ds = .ok ⟨doc0.header, doc0.notes ++ notes⟩ := by
+  induction ds with
+  | nil =>
+    intro doc0 notes h
+    cases h
+    simp [foldlE]
+  | cons l t ih =>
+    intro doc0 notes h
+    cases h with
+    | cons hl ht =>
+      rename_i d notes'
+      rw [foldlE_cons]
+      simp only [docStep, hl]
+      rw [ih _ _ ht]
+      simp
+
+/-- **The written data lines, read back by the book, are the cells — channel by channel.**  For cells the writer
+can render (`CellOK`), with the cells of every output line on pairwise different slots inside the line: the lexer
+of the denotation classifies every line of `linesOfCells cells` as a data line, and the by-the-book objects of a
+channel over the whole file are exactly the non-`00` cells of that channel, each at measure `c.measure`, beat
+`4·idx/den`, carrying its id — nothing merged, nothing dropped, nothing invented. -/
+theorem written_objects (cells : List WCell) (hcell : ∀ c ∈ cells, CellOK c)
+    (hslots : ∀ k ∈ lineKeys cells, (cells.filter (sameLine k)).Pairwise (fun a b => a.idx ≠ b.idx) ∧
+      ∀ c ∈ cells.filter (sameLine k), c.idx < k.den) (doc0 : Doc) :
+    ∃ notes, foldlE docStep doc0 (linesOfCells cells) = .ok ⟨doc0.header, doc0.notes ++ notes⟩ ∧
+      ∀ ch o, o ∈ laneObjs notes ch ↔ ∃ c ∈ cells, c.channel = ch ∧ c.value ≠ ['0', '0'] ∧
+        o = ⟨⟨(c.measure.toNat : Int), 4 * ((c.idx : Nat) : Rat) / ((c.den : Nat) : Rat), none⟩, c.value⟩ := by
+  obtain ⟨hsub, hcov, _⟩ := lineKeys_cover cells
+  -- line by line
+  have hline : ∀ k ∈ lineKeys cells, ∃ d : Bytes × Bytes × Bytes, classify (lineOf cells k) = .ok (.note d.1 d.2.1 d.2.2) ∧
+      d.2.1 = k.channel ∧ ∀ o, o ∈ objsOfLine d ↔ ∃ c ∈ cells.filter (sameLine k), c.value ≠ ['0', '0'] ∧
+        o = ⟨⟨(k.measure.toNat : Int), 4 * ((c.idx : Nat) : Rat) / ((k.den : Nat) : Rat), none⟩, c.value⟩ := by
+    intro k hk
+    obtain ⟨hm, hden, hch, _⟩ := hcell k (hsub k hk)
+    obtain ⟨mt, data, objs, hcl, hpn, hlo, hiff⟩ := written_line_denotes cells k hm hden hch
+      (fun c hc => (hcell c hc).2.2.2) (hslots k hk).1 (hslots k hk).2
+    refine ⟨(mt, k.channel, data), hcl, rfl, ?_⟩
+    rw [objsOfLine_of (mt, k.channel, data) _ objs hpn hlo]
+    exact hiff
+  have hgen : ∀ ks : List WCell, (∀ k ∈ ks, k ∈ lineKeys cells) →
+      ∃ notes, List.Forall₂ (fun l d => classify l = .ok (.note d.1 d.2.1 d.2.2)) (ks.map (lineOf cells)) notes ∧
+        ∀ ch o, o ∈ laneObjs notes ch ↔ ∃ k ∈ ks, k.channel = ch ∧ ∃ c ∈ cells.filter (sameLine k), c.value ≠ ['0', '0'] ∧
+          o = ⟨⟨(k.measure.toNat : Int), 4 * ((c.idx : Nat) : Rat) / ((k.den : Nat) : Rat), none⟩, c.value⟩ := by
+    intro ks
+    induction ks with
+    | nil => intro _; exact ⟨[], List.Forall₂.nil, by intro ch o; simp [laneObjs]⟩
+    | cons k t ih =>
+      intro hks
+      obtain ⟨notes, hf, hiff⟩ := ih (fun x hx => hks x (by simp [hx]))
+      obtain ⟨d, hcl, hdch, hdo⟩ := hline k (hks k (by simp))
+      refine ⟨d :: notes, List.Forall₂.cons hcl hf, ?_⟩
+      intro ch o
+      rw [laneObjs_cons, List.mem_append, hiff ch o]
+      constructor
+      · rintro (h | ⟨k', hk', h⟩)
+        · by_cases hc : d.2.1 = ch
+          · simp only [hc, if_true] at h
+            exact ⟨k, by simp, hdch ▸ hc, (hdo o).mp h⟩
+          · simp [hc] at h
+        · exact ⟨k', by simp [hk'], h⟩
+      · rintro ⟨k', hk', hch', h⟩
+        rcases List.mem_cons.mp hk' with rfl | hk'
+        · left
+          have hc : d.2.1 = ch := hdch.trans hch'
+          simp only [hc, if_true]
+          exact (hdo o).mpr h
+        · exact Or.inr ⟨k', hk', hch', h⟩
+  obtain ⟨notes, hf, hiff⟩ := hgen (lineKeys cells) (fun k hk => hk)
+  refine ⟨notes, foldlE_docStep_notes _ doc0 notes hf, ?_⟩
+  intro ch o
+  rw [hiff ch o]
+  constructor
+  · rintro ⟨k, _, hkc, c, hc, hv, rfl⟩
+    obtain ⟨hcm, hcs⟩ := List.mem_filter.mp hc
+    obtain ⟨e1, e2, e3⟩ := (sameLine_iff k c).mp hcs
+    exact ⟨c, hcm, by rw [← e2]; exact hkc, hv, by rw [e1, e3]⟩
+  · rintro ⟨c, hc, hcc, hv, rfl⟩
+    obtain ⟨k, hk, hs⟩ := hcov c hc
+    obtain ⟨e1, e2, e3⟩ := (sameLine_iff k c).mp hs
+    exact ⟨k, hk, by rw [e2]; exact hcc, c, List.mem_filter.mpr ⟨hc, hs⟩, hv, by rw [e1, e3]⟩
 
 /-! ### D06 -/
 
